@@ -55,8 +55,13 @@ func VerifC12_S_closure() {
 	nodes := make([]model.BuildNode, k)
 	matched := make([]bool, k)
 	isAlias := make([]bool, k)
+	// labels are (package, name) pairs: either distinct names in one package, or one name ("lib") in k sub-packages
+	sameNames := flag("targets_share_one_name")
 	for i := 0; i < k; i++ {
 		l := label.TL("p", fmt.Sprintf("n%d", i))
+		if sameNames {
+			l = label.TL(fmt.Sprintf("p/s%d", i), "lib")
+		}
 		m := flag(fmt.Sprintf("match_%d", i))
 		if i > 0 && i < k-1 && flag(fmt.Sprintf("alias_%d", i)) {
 			// an alias is matched through the pattern only (it has no tags): put unmatched ones in package q
@@ -64,7 +69,7 @@ func VerifC12_S_closure() {
 			if m {
 				matched[i] = true
 			} else {
-				l.Package = "q"
+				l.Package = "q" + l.Package[1:]
 			}
 			nodes[i] = &model.Alias{Label: l}
 		} else {
